@@ -32,10 +32,10 @@ func init() {
 		mutant{"stale timer event drops the interest", "internal/timer_linux.go",
 			"\t\t\t\t_ = t.poller.SetRead(&t.slot)\n\t\t\t\treturn\n", "\t\t\t\treturn\n", "C04-R2"},
 		mutant{"scheduling while scheduled re-arms", "timer.go",
-			"\tif t.state == stateReady {\n\t\tt.cancelled = false", "\tif t.state != stateClosed {\n\t\tt.cancelled = false", "C04-R3"},
+			"\tif t.state == stateReady {\n\t\tif delay <= 0 {", "\tif t.state != stateClosed {\n\t\tif delay <= 0 {", "C04-R3"},
 		mutant{"state set before arming succeeded", "timer.go",
-			"\t\t\tif err == nil {\n\t\t\t\tt.ioc.pendingTimers[t] = struct{}{}\n\t\t\t\tt.state = stateScheduled\n\t\t\t}",
-			"\t\t\tt.state = stateScheduled\n\t\t\tif err == nil {\n\t\t\t\tt.ioc.pendingTimers[t] = struct{}{}\n\t\t\t}", "C04-R3"},
+			"\t\t\t\tt.cancelled = false\n\t\t\t\tt.ioc.pendingTimers[t] = struct{}{}\n\t\t\t\tt.state = stateScheduled\n\t\t\t}",
+			"\t\t\t\tt.cancelled = false\n\t\t\t\tt.ioc.pendingTimers[t] = struct{}{}\n\t\t\t}\n\t\t\tt.state = stateScheduled", "C04-R3"},
 		mutant{"expiry closure calls the user first", "timer.go",
 			"\t\t\t\tdelete(t.ioc.pendingTimers, t)\n\t\t\t\tt.state = stateReady\n\t\t\t\tcb()", "\t\t\t\tdelete(t.ioc.pendingTimers, t)\n\t\t\t\tcb()\n\t\t\t\tt.state = stateReady", "C04-R3"},
 		mutant{"Unset leaves the interest", "internal/timer_linux.go",
